@@ -35,3 +35,12 @@ CASES += [
     dict(id='c04-argv0-strdup', prop='C04', file='src/library/appl/arg_string_2_array.cpp', expect='R2',
          old="      mpArgV[ 0] = new char[ 12];\n      ::strcpy( mpArgV[ 0], \"programname\");", new="      mpArgV[ 0] = ::strdup( \"programname\");"),
 ]
+
+CASES += [
+    dict(id='c04-orig-arg-file-loop-eof', prop='C04', file='src/library/prog_args/handler.cpp', expect='R8',
+         old="   while (std::getline( progArgs, line))", new="   while (!std::getline( progArgs, line).eof())"),
+    dict(id='c04-arg-file-loop-or-nonempty', prop='C04', file='src/library/prog_args/handler.cpp', expect='R8',
+         old="   while (std::getline( progArgs, line))", new="   while (std::getline( progArgs, line) || !line.empty())"),
+    dict(id='c04-eq-arg-file-loop-not-fail', prop='C04', file='src/library/prog_args/handler.cpp', expect=None,
+         old="   while (std::getline( progArgs, line))", new="   while (!std::getline( progArgs, line).fail())"),
+]
